@@ -275,7 +275,7 @@ def c01(prop, tier, seed, core):
         add_tsan_quick(m, core, prop, os.path.join(core.WORK, prop), seed)
         m["rule"] = core.RULES["progsim"] + " The quick tier also runs the stress engine (4500 jobs, two configurations) in a ThreadSanitizer build with an instrumented standard library; a report is a violation."
     # the background collector on its own: a delayed last command followed by silence
-    add_hostile(m, core, prop, os.path.join(core.WORK, prop), tier, ["lone-late-send", "reconfigure-interval", "flush-delivers-what-finished-before-it", "plain:slow-report-overruns-interval", "plain:threads-exactly-once", "big-cycle-late-signal"], [e["signature"] for e in core.known_for(prop)])
+    add_hostile(m, core, prop, os.path.join(core.WORK, prop), tier, ["lone-late-send", "reconfigure-interval", "flush-delivers-what-finished-before-it", "plain:slow-report-overruns-interval", "plain:threads-exactly-once", "plain:set-reporter-while-reporting", "big-cycle-late-signal"], [e["signature"] for e in core.known_for(prop)])
     m["rule"] += (" One separate process: 36 rounds in which a thread's last command is held up for 0.5-9.5 ms right before it enters the queue, the thread exits, "
                   "and nothing calls into the library afterwards; the background collector (2 ms interval) must report the span. Another process configures a 1 h report interval, then re-configures 5 ms and waits for "
                   "background delivery.")
@@ -346,12 +346,53 @@ HANDLERS["C03"] = c03
 
 
 def c10(prop, tier, seed, core):
-    m = core.check_progsim_family(prop, tier, seed)
+    import subprocess, json, time
+    # a thread that has opened 2^32 local scopes (about a minute and a half in a release build):
+    # started first, on a core of its own, while the other shards run
     work = os.path.join(core.WORK, prop)
+    os.makedirs(work, exist_ok=True)
+    long_proc = None
+    ok1, _ = core.build()
+    ok2, _ = core.build_hx_release()
+    o = os.path.join(work, "hostile-scope-counter-wrap-rel.json")
+    if ok1 and ok2:
+        if os.path.exists(o):
+            os.unlink(o)
+        long_log = open(o + ".log", "w")
+        long_proc = subprocess.Popen([core.binpath("hostile", True), "--scenario", "scope-counter-wrap", "--out", o], stdout=long_log, stderr=subprocess.STDOUT, env=core.ENV)
+        t_long = time.time()
+    m = core.check_progsim_family(prop, tier, seed)
     known_sigs = [e["signature"] for e in core.known_for(prop)]
     add_hostile(m, core, prop, work, tier, ["panicking-closures-in-scope"], known_sigs)
+    if long_proc is not None:
+        try:
+            rc = long_proc.wait(timeout=max(1, 900 - (time.time() - t_long)))
+        except subprocess.TimeoutExpired:
+            long_proc.kill()
+            long_proc.wait()
+            rc = "watchdog"
+        long_log.close()
+        doc = None
+        try:
+            doc = json.load(open(o))
+        except Exception:
+            pass
+        entry = {"scenario": "scope-counter-wrap/release", "status": "ok" if doc and doc.get("ok") else rc}
+        if doc and doc.get("ok"):
+            entry.update(doc.get("extra") or {})
+            m["evaluations"] += 1
+            m["distinct"] += 1
+        elif doc and doc.get("ok") is False:
+            m["violations"].append({"category": "Hostile", "signature": "panic-in-scope-counter-wrap", "detail": "scenario scope-counter-wrap: " + str(doc.get("panic")), "replay": o})
+        elif rc == "watchdog":
+            m["inconclusive"].append("scope-counter-wrap did not finish within 900 s (2^32 scope registrations on one core)")
+        else:
+            m["violations"].append({"category": "Hostile", "signature": "abort-in-scope-counter-wrap", "detail": "scenario scope-counter-wrap: process died with status %s: %s" % (rc, open(o + ".log").read()[-300:].replace("\n", " | ")), "replay": o + ".log"})
+        m["cov"].setdefault("hostile_scenarios", []).append(entry)
     m["rule"] = core.RULES["progsim"] + (" One separate process: inside an open scope, property closures given to every closure-taking entry point panic (contained by the caller); "
-                                          "after each the thread's local context must be the scope's span again, and spans recorded afterwards must hang where they belong.")
+                                          "after each the thread's local context must be the scope's span again, and spans recorded afterwards must hang where they belong. "
+                                          "One more process (release build, started first): a thread opens and closes 2^32 local scopes, then local spans must nest, close and carry "
+                                          "attachments exactly as on a young thread.")
     return m
 
 
